@@ -6,6 +6,7 @@ import (
 	"github.com/grindlemire/go-lucene/verif/core"
 	"github.com/grindlemire/go-lucene/verif/gen"
 	"github.com/grindlemire/go-lucene/verif/mon"
+	"github.com/grindlemire/go-lucene/verif/oracle"
 	"github.com/grindlemire/go-lucene/verif/qt"
 )
 
@@ -82,7 +83,7 @@ func (p c05) RunBatch(ctx *core.Ctx, batch int) {
 	case batch == nEnum:
 		// long queries: grouping must not depend on the number of clauses
 		lf := []*qt.Node{qt.F("f", qt.Word("v")), qt.T(qt.Word("a")), qt.Cmp("n", ">", qt.Int(4)), qt.Range("n", qt.Int(1), qt.Int(5), true), qt.List("s", qt.Word("x"), qt.Word("y"))}
-		for _, n := range []int{10, 40, 64, 70, 100, 200, 400} {
+		for _, n := range gen.Sizes([]int{10, 40, 64, 70, 100, 200, 400}, 8, 1200) {
 			for variant := 0; variant < 4; variant++ {
 				var t *qt.Node
 				switch variant {
@@ -119,6 +120,10 @@ func (p c05) RunBatch(ctx *core.Ctx, batch int) {
 				}
 			}
 		}
+		for _, rt := range qt.RelationTrees() {
+			p.checkTree(ctx, rt, ctx.Rand("relations"), true)
+			ctx.Count("relation_trees", 1)
+		}
 		for _, nc := range c05Named {
 			ctx.Case(nc.text, func() {
 				c05Compare(ctx, "named", nc.text, nc.tree)
@@ -151,6 +156,12 @@ func c05Compare(ctx *core.Ctx, style, text string, t *qt.Node) {
 	}
 	if !deepEqual(got, want) {
 		ctx.Violate("c05:mismatch:"+style+":"+t.Skeleton(), "text %q\n  want %s\n  got  %s", text, gostr(want), gostr(got))
+		return
+	}
+	// the same comparison without the library's constructors in between: the normal form of the
+	// printed tree against the normal form read off the parsed expression
+	if cw, cg := t.Canon(), oracle.CanonExpr(got); cw != cg {
+		ctx.Violate("c05:canon-mismatch:"+style+":"+t.Skeleton(), "text %q\n  want %s\n  got  %s", text, cw, cg)
 		return
 	}
 	ctx.Count("agree", 1)
